@@ -26,7 +26,8 @@
    id-less embedded objects are no addressees and are left alone (on the pinned tree they all carried the empty
    id, collapsed to one and the empty IRI was returned: C16_idless_dropped_pinned_refuted); the native oracle
    of C10 does not judge them, C16's does.
-   ItemCollection.Recipients() (a list of values) is NOT modelled. *)
+   ItemCollection.Recipients() (the Recipients() of a LIST of values): Model/RecipList.v and the last block of this
+   file (builder b42). *)
 From AP.Model Require Import Prelude Vocab Pred IriEq IriNf Recip.
 From AP.Proofs Require Import IriEqP RecipP RecipNfP.
 
@@ -315,6 +316,189 @@ Example C10_swapped_lists_rejected :
   option_map (fun p => fst (fst p)) (first_bad_recip recip_tables_swapped) = Some KObject /\
   (exists v, recipients_t ideq recip_tables_swapped tg_addressed = Ok (iri_items [B "https://example.com/actors/bob"; B "https://example.com/actors/alice"], v)) /\
   (exists v, recipients_m tg_addressed = Ok (iri_items [B "https://example.com/actors/alice"; B "https://example.com/actors/bob"], v)).
+Proof.
+  split; [vm_compute; reflexivity|]. split; [vm_compute; reflexivity|].
+  split; eexists; vm_compute; reflexivity.
+Qed.
+
+(* ---- ItemCollection.Recipients(): the Recipients() of a LIST of values (b42) ---- *)
+(* Model: Model/RecipList.v (new definitions; Model/Recip.v untouched).  i.Recipients() visits the members of i in
+   order through OnObject; a member that is a struct other than Link - value or pointer form, any of the 13 kinds,
+   seen as an Object: no actor, no Block clause - has ITS five lists to, cc, bto, bcc, audience de-duplicated by
+   ItemCollectionDeduplication and the ids found appended to a list `all` (ItemCollection.Append: unless ItemsEqual to
+   an element); the result is ItemCollectionDeduplication(&all).  A pointer member has its to/cc/bto/bcc written
+   back, a value member is a copy.  Everything else - the untyped nil, typed nil pointers, IRIs, links, nil lists -
+   contributes nothing and stays.
+   Specification (Section Spec of Model/RecipList.v):  list_mentions l = the ids mentioned by the members in list
+   order, per member in the order to, cc, bto, bcc, audience;  the result is first_mentions of that;  member_after =
+   the member's own lists reduced to the member's own first mentions (what C10_addressing says of its own
+   Recipients()), for pointer members only.
+   DOMAIN of C10_list_result: no list inside the list (flat_member; a NIL list is a nil-like member and is inside);
+   ids in a set D on which the comparison is symmetric and transitive and which holds no id that IsNil takes for
+   nothing (the empty id and "-": `all.Append` and the final de-duplication skip such ids, so an addressee whose id
+   is "-" would be lost - replayed on the code by the odd stream).  For the code's comparison D := iri_dom (C14).
+   Lists inside the list are outside the vocabulary; the model follows the code there (the first member of a nested
+   list that OnObject refuses - a plain IRI - ends the loop over that list, so later members' addressees are not
+   reported: C10_list_nested_witness, replayed on the code by harness/c10list.go) and C10_list_no_panic covers them. *)
+From AP.Model Require Import RecipList RecipListTab RecipListGen.
+From AP.Proofs Require Import RecipListP RecipListTabP.
+
+(* each distinct addressee once, in order of first mention across the members; every member afterwards *)
+Theorem C10_list_result : forall (eqv : bytes -> bytes -> bool) (D : bytes -> Prop),
+  (forall a b, D a -> D b -> eqv a b = eqv b a) ->
+  (forall a b c, D a -> D b -> D c -> eqv a b = true -> eqv b c = true -> eqv a c = true) ->
+  (forall a, D a -> nameable a = true) ->
+  forall l, forallb flat_member l = true -> Forall D (list_mentions l) ->
+  recipients_list eqv (Some l)
+  = Ok (iri_items (first_mentions eqv (list_mentions l)), Some (map (member_after eqv) l)).
+Proof. exact recipients_list_refines. Qed.
+
+(* the code's comparison, ids in the domain of C14: no hypothesis on the comparison *)
+Theorem C10_list_result_domain : forall l,
+  forallb flat_member l = true -> forallb iri_dom (list_mentions l) = true ->
+  recipients_list_m (Some l)
+  = Ok (iri_items (first_mentions ideq (list_mentions l)), Some (map (member_after ideq) l)).
+Proof. exact recipients_list_m_refines_dom. Qed.
+
+(* in the words of the property (C10_code_meaning_domain applied to list_mentions l): the returned list is an
+   order-preserving sub-list of the mentions, every mention is equivalent to exactly one returned id, and
+   "equivalent" is "same normal form, scheme ignored" *)
+Theorem C10_list_meaning_domain : forall l,
+  forallb iri_dom (list_mentions l) = true ->
+  subseq (first_mentions ideq (list_mentions l)) (list_mentions l) /\
+  (forall k, In k (list_mentions l) -> length (filter (ideq k) (first_mentions ideq (list_mentions l))) = 1) /\
+  (forall a b, In a (list_mentions l) -> In b (list_mentions l) -> (ideq a b = true <-> nf false a = nf false b)).
+Proof. exact (fun l => first_mentions_meaning_dom (list_mentions l)). Qed.
+
+(* a pointer member afterwards: its own to/cc/bto/bcc hold its own first mentions, list by list in scan order (what
+   C10_addressing says of its own Recipients(); C10_lists_meaning spells that out), every other property -
+   audience included - is what it was; any other member is what it was *)
+Theorem C10_list_member_after : forall eqv p k fs, object_member (IObj p k fs) = true ->
+  exists fs', member_after eqv (IObj true k fs) = IObj true k fs' /\
+    addressing fs' = keep_first_lists eqv [] (addressing fs) /\
+    (forall f, is_addr4 f = false -> getf f fs' = getf f fs).
+Proof. exact member_after_addressing. Qed.
+Theorem C10_list_member_stays : forall eqv m,
+  match m with IObj true k _ => object_member m = false | _ => True end -> member_after eqv m = m.
+Proof. exact member_after_other. Qed.
+
+(* nil-like members (and IRIs, links): skipped - they mention nobody, wherever they stand - and left alone *)
+Theorem C10_list_nil_like_skipped : forall eqv n l1 l2, plain_member n = true ->
+  list_mentions (l1 ++ n :: l2) = list_mentions (l1 ++ l2) /\ member_after eqv n = n.
+Proof. exact plain_member_skipped. Qed.
+
+(* no panic, on ANY list: nil-like members, links, IRIs, lists in lists at any depth; the only hypothesis is on the
+   ids the de-duplications compare (deep_mentions_list: those of every struct member at any nesting depth) *)
+Theorem C10_list_no_panic : forall (eqv : bytes -> bytes -> bool) (D : bytes -> Prop),
+  (forall a b, D a -> D b -> eqv a b = eqv b a) ->
+  (forall a b c, D a -> D b -> D c -> eqv a b = true -> eqv b c = true -> eqv a c = true) ->
+  (forall a, D a -> nameable a = true) ->
+  forall i, Forall D (deep_mentions_list (match i with Some l => l | None => [] end)) ->
+  exists r l', recipients_list eqv i = Ok (r, l').
+Proof. exact recipients_list_total. Qed.
+Theorem C10_list_no_panic_domain : forall i,
+  forallb iri_dom (deep_mentions_list (match i with Some l => l | None => [] end)) = true ->
+  exists r l', recipients_list_m i = Ok (r, l').
+Proof. exact recipients_list_m_total_dom. Qed.
+Theorem C10_list_deep_is_flat : forall l, forallb flat_member l = true -> deep_mentions_list l = list_mentions l.
+Proof. exact deep_mentions_flat. Qed.
+
+(* `all.Append` is the container operation of C13 (Model/Coll.v: ItemCollection.Append over ItemsEqual) *)
+Theorem C10_list_append_is_collection_append : forall A rec,
+  all_append ideq (map (IIri false) A) rec = all_append_coll (map (IIri false) A) rec.
+Proof. exact all_append_is_coll. Qed.
+
+(* defect of the tree before this builder's fix: a nil list among the members (ItemCollection(nil), IRIs(nil): IsNil
+   holds for them) reached `range *col` with col == nil in OnObject's callback *)
+Definition lX := IIri false (B "https://example.com/actors/alice").
+Definition lY := IIri false (B "https://example.com/actors/bob").
+Definition lXv := IIri false (B "http://EXAMPLE.com/actors/alice/").
+Definition lPub := IIri false (B "https://www.w3.org/ns/activitystreams#Public").
+Definition note2 := IObj true KObject [(F_ID, FStr (B "https://example.com/notes/2")); (F_To, FItems (Some [lY]))].
+Theorem C10_list_nil_list_pinned_refuted : exists l, recipients_list_pinned_m (Some l) = Panic NilDeref.
+Proof. exists [IItems false None; note2]. vm_compute. reflexivity. Qed.
+Example C10_list_nil_list_repaired :
+  recipients_list_m (Some [IItems false None; IIris false None; note2])
+  = Ok (iri_items [B "https://example.com/actors/bob"], Some [IItems false None; IIris false None; note2]).
+Proof. vm_compute. reflexivity. Qed.
+
+(* outside the domain of C10_list_result: a plain IRI in a list INSIDE the list ends the loop over that inner list *)
+Definition note1 := IObj true KObject [(F_ID, FStr (B "https://example.com/notes/1")); (F_To, FItems (Some [lX]))].
+Example C10_list_nested_witness :
+  flat_member (IItems false (Some [note1; lX; note2])) = false /\
+  recipients_list_m (Some [IItems false (Some [note1; lX; note2])])
+  = Ok (iri_items [B "https://example.com/actors/alice"], Some [IItems false (Some [note1; lX; note2])]) /\
+  recipients_list_m (Some [IItems false (Some [lX; note1; note2])])
+  = Ok (iri_items [], Some [IItems false (Some [lX; note1; note2])]).
+Proof. split; [reflexivity|]. split; vm_compute; reflexivity. Qed.
+
+(* non-vacuity: a pointer note with duplicates inside and across its lists, a VALUE-form activity (Block type, an
+   object and an actor that must play no role), a typed nil pointer, the untyped nil, a nil list, an IRI and a link;
+   the hypotheses of C10_list_result_domain hold (ten mentions, six of them repeats or variants of earlier ones) *)
+Definition ex_list : list item :=
+  [IObj true KObject [(F_ID, FStr (B "https://example.com/notes/1")); (F_Type, FStr (B "Note"));
+                      (F_Audience, FItems (Some [lPub; lY]));
+                      (F_To, FItems (Some [lX; INil; lXv; ITNil KActor; lY]));
+                      (F_CC, FItems (Some [lY; lPub]))];
+   ITNil KObject; INil; IItems false None; lX;
+   IObj false KLink [(F_ID, FStr (B "https://example.com/links/1")); (F_Type, FStr (B "Mention"))];
+   IObj false KActivity [(F_ID, FStr (B "https://example.com/activities/1")); (F_Type, FStr (B "Block"));
+                         (F_To, FItems (Some [lXv; IIri false (B "https://example.net/inbox"); lXv]));
+                         (F_Actor, FItem (IIri false (B "https://example.org/actor")));
+                         (F_Object, FItem lXv)]].
+Example C10_list_example_hypotheses :
+  forallb flat_member ex_list = true /\ forallb iri_dom (list_mentions ex_list) = true /\
+  length (list_mentions ex_list) = 10.
+Proof. repeat split; vm_compute; reflexivity. Qed.
+Example C10_list_example_result :
+  recipients_list_m (Some ex_list)
+  = Ok (iri_items [B "https://example.com/actors/alice"; B "https://example.com/actors/bob";
+                   B "https://www.w3.org/ns/activitystreams#Public"; B "https://example.net/inbox"],
+        Some [IObj true KObject [(F_ID, FStr (B "https://example.com/notes/1")); (F_Type, FStr (B "Note"));
+                                 (F_Audience, FItems (Some [lPub; lY]));
+                                 (F_To, FItems (Some [lX; INil; ITNil KActor; lY]));
+                                 (F_CC, FItems (Some [lPub]))];
+              ITNil KObject; INil; IItems false None; lX;
+              IObj false KLink [(F_ID, FStr (B "https://example.com/links/1")); (F_Type, FStr (B "Mention"))];
+              IObj false KActivity [(F_ID, FStr (B "https://example.com/activities/1")); (F_Type, FStr (B "Block"));
+                                    (F_To, FItems (Some [lXv; IIri false (B "https://example.net/inbox"); lXv]));
+                                    (F_Actor, FItem (IIri false (B "https://example.org/actor")));
+                                    (F_Object, FItem lXv)]]).
+Proof. vm_compute. reflexivity. Qed.
+
+(* ---- generated-table tie for the list method (Gen/RecipListT.v, translator/reciplistt.go) ---- *)
+(* generic: for EVERY table that satisfies the condition and every id comparison, the table's meaning is the model
+   the theorems above are about *)
+Theorem C10_list_table_tie : forall T, recip_list_table_ok T = true ->
+  forall eqv i, recipients_list_t eqv T i = recipients_list eqv i.
+Proof. exact recip_list_table_tie'. Qed.
+
+(* diagnosis first: Coq's error message shows the generated entry and the argument list read off it *)
+Theorem C10_list_table_first_bad : first_bad_recip_list gen_recip_list_table = None.
+Proof. vm_compute. reflexivity. Qed.
+
+(* the condition on the table regenerated from the source on this run *)
+Theorem C10_list_table : recip_list_table_ok gen_recip_list_table = true.
+Proof. vm_compute. reflexivity. Qed.
+
+Theorem C10_list_gen : forall eqv i, recipients_list_gen eqv i = recipients_list eqv i.
+Proof. exact (C10_list_table_tie gen_recip_list_table C10_list_table). Qed.
+
+Example C10_list_gen_example :
+  length gen_recip_list_table = 1 /\ recipients_list_gen ideq (Some ex_list) = recipients_list_m (Some ex_list).
+Proof. split; vm_compute; reflexivity. Qed.
+
+(* what the condition is for: the table of a source whose callback lost its nil guard (the tree before fix df7dbaf)
+   and the table of a source that scans cc before to both fail it; the swapped table's meaning returns the
+   recipients in another order *)
+Example C10_list_bad_tables_rejected :
+  recip_list_table_ok recip_list_table_unguarded = false /\
+  recip_list_table_ok recip_list_table_swapped = false /\
+  (exists v, recipients_list_t ideq recip_list_table_swapped
+               (Some [IObj true KObject [(F_To, FItems (Some [lX])); (F_CC, FItems (Some [lY]))]])
+             = Ok (iri_items [B "https://example.com/actors/bob"; B "https://example.com/actors/alice"], v)) /\
+  (exists v, recipients_list_m (Some [IObj true KObject [(F_To, FItems (Some [lX])); (F_CC, FItems (Some [lY]))]])
+             = Ok (iri_items [B "https://example.com/actors/alice"; B "https://example.com/actors/bob"], v)).
 Proof.
   split; [vm_compute; reflexivity|]. split; [vm_compute; reflexivity|].
   split; eexists; vm_compute; reflexivity.
